@@ -267,7 +267,7 @@ def error_propagates(prov, fn, cb):
     return ef["returned_directly"]
 
 
-def value_cases(prov, fn, l, _depth=0, _outer=()):
+def value_cases(prov, fn, l, _depth=0, _outer=(), _use=None):
     """the ways local `l` gets its value: [(origin, conditions under which that definition is the one used, (block, index))],
     looking through plain moves (`x = move tmp` where tmp is assigned in several branches - the shape a spliced helper, a
     desugared combinator or a block expression leaves behind); the conditions are those dominating the defining site and
@@ -277,11 +277,13 @@ def value_cases(prov, fn, l, _depth=0, _outer=()):
     for kind, db, di, x in prov.defs(fn).get(l, []):
         if kind == "setdiscr" or x["dst"]["p"] or db not in live:
             continue        # (blocks only reachable by unwinding are not part of the graph)
+        if _use is not None and not prov._reaches_live(fn, l, (db, di), _use):
+            continue        # this definition is not the one the move reads (duplicated joins after jump threading)
         here = tuple(dominating_conditions(prov, fn, db))
         if kind == "assign" and x["rv"]["k"] == "use" and x["rv"]["op"].get("k") in ("copy", "move") and not x["rv"]["op"]["place"]["p"] and _depth < 6:
             m = x["rv"]["op"]["place"]["l"]
             if m > fn.arg_count and m != l and prov.defs(fn).get(m):
-                out.extend(value_cases(prov, fn, m, _depth + 1, _outer + here))
+                out.extend(value_cases(prov, fn, m, _depth + 1, _outer + here, (db, di)))
                 continue
         val = prov.rvalue(fn, x["rv"], (db, di)) if kind == "assign" else prov.call_origin(fn, x, db)
         conds = []
